@@ -36,6 +36,7 @@ var (
 	unionAttributePrefix     = "_*_"
 	unionAttributeTypePrefix = "_|_"
 	objectPrefix             = "_o_"
+	objectSuffix             = "_e_"
 	tagPrefix                = "+"
 	userTypeHashPrefix       = "!"
 	userTypeRecursivePrefix  = "^"
@@ -77,14 +78,26 @@ func hash(dt DataType, ignoreFields, ignoreNames, ignoreTags bool, seen *hashSee
 	}
 }
 
+// hashChild returns the hash of a type nested in another type. The hash of a
+// nested object is terminated explicitly: an object hash is a list of
+// attributes without an end marker so that without it {a: {b, c}} and
+// {a: {b}, c} would have the same hash.
+func hashChild(dt DataType, ignoreFields, ignoreNames, ignoreTags bool, seen *hashSeen) string {
+	h := *hash(dt, ignoreFields, ignoreNames, ignoreTags, seen)
+	if dt.Kind() == ObjectKind {
+		h += objectSuffix
+	}
+	return h
+}
+
 func hashArray(a *Array, ignoreFields, ignoreNames, ignoreTags bool, seen *hashSeen) *string {
-	h := arrayPrefix + *hash(a.ElemType.Type, ignoreFields, ignoreNames, ignoreTags, seen)
+	h := arrayPrefix + hashChild(a.ElemType.Type, ignoreFields, ignoreNames, ignoreTags, seen)
 	return &h
 }
 
 func hashMap(m *Map, ignoreFields, ignoreNames, ignoreTags bool, seen *hashSeen) *string {
-	h := mapPrefix + *hash(m.KeyType.Type, ignoreFields, ignoreNames, ignoreTags, seen) +
-		mapElemPrefix + *hash(m.ElemType.Type, ignoreFields, ignoreNames, ignoreTags, seen)
+	h := mapPrefix + hashChild(m.KeyType.Type, ignoreFields, ignoreNames, ignoreTags, seen) +
+		mapElemPrefix + hashChild(m.ElemType.Type, ignoreFields, ignoreNames, ignoreTags, seen)
 	return &h
 }
 
@@ -96,7 +109,7 @@ func hashUnion(u *Union, ignoreFields, ignoreNames, ignoreTags bool, seen *hashS
 	})
 	h := unionTypePrefix + u.TypeName
 	for _, nat := range sorted {
-		h += unionAttributePrefix + nat.Name + unionAttributeTypePrefix + *hash(nat.Attribute.Type, ignoreFields, ignoreNames, ignoreTags, seen)
+		h += unionAttributePrefix + nat.Name + unionAttributeTypePrefix + hashChild(nat.Attribute.Type, ignoreFields, ignoreNames, ignoreTags, seen)
 	}
 	return &h
 }
@@ -126,7 +139,7 @@ func hashUserType(ut UserType, ignoreFields, ignoreNames, ignoreTags bool, seen 
 	if !ignoreTags {
 		h += hashTags(att.Meta)
 	}
-	h += userTypeHashPrefix + *hash(att.Type, ignoreFields, ignoreNames, ignoreTags, seen)
+	h += userTypeHashPrefix + hashChild(att.Type, ignoreFields, ignoreNames, ignoreTags, seen)
 	return &h
 }
 
@@ -139,7 +152,7 @@ func hashObject(o *Object, ignoreFields, ignoreNames, ignoreTags bool, seen *has
 	seen.objects[o] = ph
 	for _, a := range sorted(o) {
 		*ph += attributePrefix + a.Name +
-			attributeTypePrefix + *hash(a.Attribute.Type, ignoreFields, ignoreNames, ignoreTags, seen)
+			attributeTypePrefix + hashChild(a.Attribute.Type, ignoreFields, ignoreNames, ignoreTags, seen)
 		if !ignoreTags {
 			*ph += hashTags(a.Attribute.Meta)
 		}
